@@ -28,6 +28,8 @@ var props = map[string]*propDef{}
 
 var dumpAll bool
 
+var verifRoot = "/verif"
+
 func register(p *propDef) { props[p.ID] = p }
 
 func main() {
@@ -49,6 +51,7 @@ func main() {
 			*verif = "/verif"
 		}
 	}
+	verifRoot = *verif
 	if *explain != "" {
 		b, err := os.ReadFile(*explain)
 		if err != nil {
